@@ -29,8 +29,8 @@ func assumeParamsTrue(r *Run, fn string, idx ...int) map[types.Object]core.Tri {
 }
 
 func heightPositive(c *core.Ctx, e ast.Expr) core.Tri {
-	if op, ok := core.CmpAtom(c, e, core.Mentions("types.Block.Height"), core.IsConstInt(0)); ok && op == token.GTR {
-		return core.True
+	if t := core.AssumeRel(core.Mentions("types.Block.Height"), token.GTR, core.IsConstInt(0), core.True)(c, e); t != core.Unknown {
+		return t
 	}
 	return core.Unknown
 }
@@ -112,8 +112,8 @@ func init() {
 				}, Fail: core.OTrue, Idx: -1, Forbidden: core.CallSink(bcm + "maybeAddBestChain"), Min: 1, Name: "block hash already known"}.Check(r)
 				core.FailStops{Fn: pb, Spec: &core.FlowSpec{Assume: func(c *core.Ctx, e ast.Expr) core.Tri {
 					// the block is not the genesis block and not a known orphan
-					if op, ok := core.CmpAtom(c, e, core.CallsAny("types.(*Block).GetHeight"), core.IsConstInt(0)); ok && op == token.EQL {
-						return core.False
+					if t := core.AssumeRel(core.CallsAny("types.(*Block).GetHeight"), token.EQL, core.IsConstInt(0), core.False)(c, e); t != core.Unknown {
+						return t
 					}
 					return core.Unknown
 				}, FailCalls: []core.FailCall{{Callee: core.Names(bcp + "(*OrphanPool).IsKnownOrphan"), Idx: -1, Outcome: core.OFalse}}},
@@ -159,7 +159,7 @@ func init() {
 						if g == nil {
 							continue
 						}
-						ast.Inspect(g.Body(), func(x ast.Node) bool {
+						core.InspectBody(g, func(x ast.Node) bool {
 							if id, ok := x.(*ast.Ident); ok && g.Info().Uses[id] == so {
 								mentioned = true
 							}
@@ -279,7 +279,7 @@ func init() {
 							continue
 						}
 						n++
-						ast.Inspect(f.Body(), func(x ast.Node) bool {
+						core.InspectBody(f, func(x ast.Node) bool {
 							if call, ok := x.(*ast.CallExpr); ok && bad == "" && forb.Has(core.Callee(f.Info(), call)) {
 								bad = fmt.Sprintf("%s: `%s` (reached through %s) writes on its own: part of the block's records would become durable before the rest", r.W.Pos(call.Pos()), core.ExprStr(call), strings.Join(chain, " → "))
 							}
@@ -299,7 +299,7 @@ func init() {
 						continue
 					}
 					n := 0
-					ast.Inspect(f.Body(), func(x ast.Node) bool {
+					core.InspectBody(f, func(x ast.Node) bool {
 						if call, ok := x.(*ast.CallExpr); ok && core.Names("common/db.Batch.Write", "common/db.MustWrite").Has(core.Callee(f.Info(), call)) {
 							n++
 						}
@@ -409,7 +409,7 @@ func init() {
 					if f != nil {
 						c := f.Ctx()
 						ok := false
-						ast.Inspect(f.Body(), func(n ast.Node) bool {
+						core.InspectBody(f, func(n ast.Node) bool {
 							if ifs, isIf := n.(*ast.IfStmt); isIf {
 								if b, isB := ast.Unparen(ifs.Cond).(*ast.BinaryExpr); isB && b.Op == token.LOR {
 									if (core.IsObj(bcp+"BlockStore.saveSequence")(c, b.X) && core.IsObj(bcp+"BlockStore.isParaChain")(c, b.Y)) ||
@@ -450,7 +450,7 @@ func init() {
 				}
 				c := f.Ctx()
 				seen := map[string]bool{}
-				ast.Inspect(f.Body(), func(x ast.Node) bool {
+				core.InspectBody(f, func(x ast.Node) bool {
 					call, ok := x.(*ast.CallExpr)
 					if !ok || !core.Names("common/db.Batch.Set").Has(core.Callee(c.Info, call)) || len(call.Args) != 2 {
 						return true
@@ -509,8 +509,8 @@ func init() {
 			rule("R32a", "acknowledged before recorded", 4, func(r *Run) {
 				cl := "blockchain.(*Push).runTask$calls:blockchain.PostService.PostData"
 				dataNonNil := func(c *core.Ctx, e ast.Expr) core.Tri {
-					if op, ok := core.CmpAtom(c, e, core.FromCall(0, "blockchain.(*Push).getPushData"), isNilLit); ok && op == token.NEQ {
-						return core.True
+					if t := core.AssumeRel(core.FromCall(0, "blockchain.(*Push).getPushData"), token.NEQ, isNilLit, core.True)(c, e); t != core.Unknown {
+						return t
 					}
 					return core.Unknown
 				}
@@ -601,7 +601,7 @@ func init() {
 				// cursor initialised from the persisted last pushed sequence of this subscriber
 				c := lit.Ctx()
 				okInit := false
-				ast.Inspect(lit.Body(), func(x ast.Node) bool {
+				core.InspectBody(lit, func(x ast.Node) bool {
 					if as, ok := x.(*ast.AssignStmt); ok && as.Tok == token.DEFINE && len(as.Rhs) == 1 && core.CallAtom([]string{"blockchain.(*Push).getLastPushSeq"})(c, as.Rhs[0]) {
 						okInit = true
 					}
@@ -622,7 +622,7 @@ func init() {
 					return ok && info.ObjectOf(id) == r.W.LookupObj(bcp+"running")
 				}
 				inLit, before := false, false
-				ast.Inspect(lit.Body(), func(x ast.Node) bool {
+				core.InspectBody(lit, func(x ast.Node) bool {
 					if isRunningStore(lit.Info(), x) {
 						inLit = true
 					}
